@@ -224,7 +224,7 @@ class C01(RenderProp):
     id = "C01"
     n_quick = 3000
     n_thorough = 40000
-    required_theorems = ["C01_extract", "C01_ops_table", "C01_closures", "C01_arith_matrix", "C01_arith", "C01_rem", "C01_concat", "C01_compare_numbers",
+    required_theorems = ["C01_extract", "C01_ops_table", "C01_closures", "C01_arith_matrix", "C01_cmp_matrix", "C01_arith", "C01_rem", "C01_concat", "C01_compare_numbers",
                          "C01_compare_strings", "C01_truthiness", "C01_logical_operands", "C01_conditional", "C01_eval_scalar", "C01_eval_scalar_entry", "C01_print_scalar"]
     assumptions = ["numbers are modelled by exact rationals; Number.String by fmtG10 (validated by correspondence)",
                    "the round trip pipeline AST -> action source text -> forked text/template parser is taken as the identity (validated end to end by the correspondence)"]
